@@ -449,6 +449,12 @@ impl Story {
             }
         }
 
+        // A pointer that resolves to nothing (e.g. an index beyond the end of
+        // its container in a damaged save) has no content to add.
+        if current_content_obj.is_none() {
+            should_add_to_stream = false;
+        }
+
         // Content to add to evaluation stack or the output stream
         if should_add_to_stream {
             // If we're pushing a variable pointer onto the evaluation stack,
